@@ -293,3 +293,14 @@ def run(facts, rep, ctx):
     from . import round3
     round3.qs1(facts, rep)
 
+
+_run_before_round4b = run
+
+
+def run(facts, rep, ctx):
+    """further rules added after the third seeding round (rules/round4.py)"""
+    _run_before_round4b(facts, rep, ctx)
+    from . import round4
+    round4.vd2(facts, rep)
+    round4.tb4c(facts, rep)
+
